@@ -85,7 +85,7 @@ def cte_view_cases(ck, rng, runner, tier):
         db = tables(rng)
         g = qgen.Gen(rng, db, {"join", "agg", "distinct", "union", "case"})
         body_q, ty = g.query(rng.pick([1, 2]))
-        if qgen.has_or_absorption(body_q) or len(ty) < 1:
+        if qgen.excluded(body_q) or len(ty) < 1:
             continue
         r = qgen.Renderer(g.schema)
         body_sql = r.query(body_q)
